@@ -719,7 +719,21 @@ V('c08-purge-all-removed', 'C08', 'C08.PURGE', CORE,
   "        self._async_remove_queued_answers([record for record, _ in out.answers])\n", "")
 V('c08-purge-conditional', 'C08', 'C08.PURGE', CORE,
   "        self._async_remove_queued_answers(withdrawn)\n", "        if broadcast_addresses:\n            self._async_remove_queued_answers(withdrawn)\n")
+V('c08-sync-unregister-unawaited', 'C08', 'C08.COMPLETE', CORE,
+  "            await_awaitable(self.async_unregister_service(info)),\n            self.loop,", "            self.async_unregister_service(info),\n            self.loop,")
+V('c08-sync-update-unawaited', 'C08', 'C08.COMPLETE', CORE,
+  "            await_awaitable(self.async_update_service(info)), self.loop,", "            self.async_update_service(info), self.loop,")
+V('c08-announce-no-recheck', 'C08', 'C08.REVALIDATE', CORE,
+  "            if ttl is None and self.registry.async_get_info_name(info.key) is not info:\n                # The service was unregistered while this task was waiting;\n                # announcing it now would follow its goodbye packets.\n                return\n", "")
+V('c08-announce-recheck-first-only', 'C08', 'C08.REVALIDATE', CORE,
+  "            if ttl is None and self.registry.async_get_info_name(info.key) is not info:", "            if i == 0 and ttl is None and self.registry.async_get_info_name(info.key) is not info:")
+V('c08-purge-one-shot-iterator', 'C08', 'C08.PURGE', CORE,
+  "        self._async_remove_queued_answers([record for record, _ in out.answers])\n", "        self._async_remove_queued_answers(record for record, _ in out.answers)\n", expect='silent')  # materialised once by the helper
 # twins
+V('c08-twin-recheck-membership', 'C08', 'C08.REVALIDATE', CORE,
+  "            if ttl is None and self.registry.async_get_info_name(info.key) is not info:", "            if ttl is None and info not in self.registry.async_get_service_infos():", expect='silent')
+V('c08-twin-purge-tuple', 'C08', 'C08.PURGE', CORE,
+  "        self._async_remove_queued_answers([record for record, _ in out.answers])\n", "        self._async_remove_queued_answers(tuple(record for record, _ in out.answers))\n", expect='silent')
 V('c08-twin-purge-inline', 'C08', 'C08.PURGE', CORE,
   "        self._async_remove_queued_answers(withdrawn)\n", "        self.out_queue._remove_answers_from_queue(dict.fromkeys(withdrawn, set()))\n        self.out_delay_queue._remove_answers_from_queue(dict.fromkeys(withdrawn, set()))\n", expect='silent')
 
@@ -750,7 +764,7 @@ V('c09-check-150', 'C09', 'C09.CONST', 'const.py', "_CHECK_TIME = 175  # ms", "_
 V('c09-register-time', 'C09', 'C09.CONST', 'const.py', "_REGISTER_TIME = 225  # ms", "_REGISTER_TIME = 125  # ms")
 V('c09-probe-spacing-other-const', 'C09', 'C09.CONST', CORE, "            next_time += _CHECK_TIME", "            next_time += _UNREGISTER_TIME")
 V('c09-two-probes', 'C09', 'C09.CONST', CORE, "        while i < _REGISTER_BROADCASTS:\n            # check for a name conflict", "        while i < _REGISTER_BROADCASTS - 1:\n            # check for a name conflict")
-V('c09-no-sleep-between', 'C09', 'C09.CONST', CORE, "            if i != 0:\n                await asyncio.sleep(millis_to_seconds(interval))\n            self.async_send(self.generate_service_broadcast", "            if i == 0:\n                await asyncio.sleep(millis_to_seconds(interval))\n            self.async_send(self.generate_service_broadcast")
+V('c09-no-sleep-between', 'C09', 'C09.CONST', CORE, "            if i != 0:\n                await asyncio.sleep(millis_to_seconds(interval))\n            if ttl is None", "            if i == 0:\n                await asyncio.sleep(millis_to_seconds(interval))\n            if ttl is None")
 V('c09-duplicate-overwrites', 'C09', 'C09.UNIQUE', RG,
   "        if info.key in self._services:\n            raise ServiceNameAlreadyRegistered\n", "")
 V('c09-duplicate-case-sensitive', 'C09', 'C09.UNIQUE', RG, "        if info.key in self._services:", "        if info.name in self._services:")
